@@ -3,6 +3,7 @@ import FrappyProofs.Lemmas.ClientOf
 import FrappyProofs.Lemmas.TextRoundtrip
 import FrappyProofs.Lemmas.ClientText
 import FrappyProofs.Lemmas.RatWireLaws
+import FrappyProofs.Lemmas.TextLibRat
 import FrappyModel.Generated.C02
 /-
 C02 — property theorems (nothing but property theorems and their non-vacuity examples).
@@ -127,11 +128,53 @@ example (hb : B64Law) : ∃ v', (exportValue exTree exValue >>= importValue exTr
 
 example : ∃ cdt, clientOf exTree = some cdt := ⟨_, rfl⟩
 
+/-! non-vacuity of the text theorems: a library satisfying every law of `TextLib.Lawful` (`Lemmas/TextLibRat.lean`), the
+struct tree above with a node-side value that has all its members, and — on the rebuilt type — the value without its
+optional member -/
+
+def exValueFull : PVal Rat :=
+  .dict [("b", .tuple [.enum "on" 1, .enum "off" 0]), ("a", .tuple [.float (33/10)]), ("c", .str "x'y")]
+
+/-- what a client rebuilds from the description of `exTree` -/
+def exClient : DType Rat :=
+  .struct [("a", .tuple [.scaled (1/10) 0 10 (1/10) 0]), ("b", .array (.enum [("off", 0), ("on", 1)]) 0 3),
+    ("c", .string 0 5 true)] ["c"] true
+
+theorem exClient_eq : clientOf exTree = some exClient := by
+  simp [exTree, exClient, clientOf, clientOfFields, clientOfList, clientScaled, DType.gridIndex, FloatOps.div, FloatOps.round,
+    FloatOps.ofInt, FloatOps.mul]
+  decide +kernel
+
+example : ∃ t v', toString exLib exTree exValueFull = some t ∧ fromString exLib exTree t = .ok v' ∧
+    toString exLib exTree v' = some t ∧ SameButFloats v' exValueFull :=
+  text_roundtrip exLib exLib_lawful exTree exTree_wf
+    (by simp [exTree, NamesStripped, NamesStrippedFields, NamesStrippedList, exLib]) exValueFull
+    (of_decide_eq_true (by decide +kernel : validB exTree exValueFull = true))
+    (by simp [exValueFull, Canon, CanonFields, CanonList, FloatOps.same, FloatOps.addZero])
+    (by simp [exTree, exValueFull, TextComplete, TextCompleteMember, TextCompleteZip])
+
+example (hb : B64Law) : ∃ t v' j v'', cacheItemStr exLib exClient exValue = some t ∧ fromString exLib exClient t = .ok v' ∧
+    toString exLib exClient v' = some t ∧ SameButFloats v' exValue ∧ clientSetFromString exLib exClient t = .ok j ∧
+    KindOK exTree j ∧ StrictJ j ∧ importValue exTree j = .ok v'' ∧ pyEq v'' v' = true :=
+  client_string_write exLib exLib_lawful hb exTree exClient exTree_wf exClient_eq
+    (by simp [exClient, NamesStripped, NamesStrippedFields, NamesStrippedList, exLib]) exValue
+    (of_decide_eq_true (by decide +kernel : validB exClient exValue = true))
+    (by simp [exValue, Canon, CanonFields, CanonList, FloatOps.same, FloatOps.addZero])
+
 /-- a tree without struct for the text theorem: `array of tuple(enum)` (one-member tuples) -/
 def exTextTree : DType Rat := .array (.tuple [.enum [("off", 0), ("on", 1)]]) 0 3
 
 def exTextValue : PVal Rat := .tuple [.tuple [.enum "on" 1], .tuple [.enum "off" 0]]
 
 example : exTextTree.wfB = true ∧ validB exTextTree exTextValue = true := by decide +kernel
+
+example : ∃ t v', toString exLib exTextTree exTextValue = some t ∧ fromString exLib exTextTree t = .ok v' ∧
+    toString exLib exTextTree v' = some t ∧ SameButFloats v' exTextValue :=
+  text_roundtrip exLib exLib_lawful exTextTree
+    (by simp [exTextTree, DType.WF, DType.WFList, DType.namesOK])
+    (by simp [exTextTree, NamesStripped, NamesStrippedList, exLib]) exTextValue
+    (of_decide_eq_true (by decide +kernel : validB exTextTree exTextValue = true))
+    (by simp [exTextValue, Canon, CanonList])
+    (by simp [exTextTree, exTextValue, TextComplete, TextCompleteZip])
 
 end Frappy.Props.C02
